@@ -34,6 +34,7 @@ type Cfg struct {
 	PureConds  bool // no calls under && / ||, in else-if conditions and in case expressions (Go would short-circuit them)
 	IO         bool // input/read/write/exists and program calls (never executed by the harness: C16 only)
 	ErrSpell   bool // string types may be spelled "error" and the empty string literal nil (README: "Error and nil")
+	BareExpr   bool // a value expression on a line of its own (x, 5, "s", (x), itoa(x), x + 1): accepted by TypeShell, no effect
 }
 
 type varInfo struct {
@@ -1574,7 +1575,29 @@ func (g *G) stmt(depth int) []ts.Stmt {
 	if g.cfg.IO {
 		wIO = 12
 	}
-	switch g.pick("stmt", 18, 18, 16, wIf, wSwitch, wLoop, wJump, wCall, wRet, wPanic, wSet, wCopy, wDump, wIO) {
+	wBare := 0
+	if g.cfg.BareExpr {
+		wBare = 4
+	}
+	switch g.pick("stmt", 18, 18, 16, wIf, wSwitch, wLoop, wJump, wCall, wRet, wPanic, wSet, wCopy, wDump, wIO, wBare) {
+	case 14:
+		g.tag("bare-expression")
+		ty := g.scalarType("bare-type")
+		var e ts.Expr
+		switch g.pick("bare-form", 35, 20, 15, 30) {
+		case 0:
+			e = g.leaf(ty, 0)
+		case 1:
+			e = ts.Group{E: g.leaf(ty, 0)}
+		case 2:
+			e = ts.Itoa{X: g.leaf(ts.TInt, 0)}
+		default:
+			e = ts.Group{E: g.expr(ty, 1)} // grouped: a line starting with name[ is read as an element assignment
+		}
+		if _, isIdx := e.(ts.Index); isIdx {
+			e = ts.Group{E: e}
+		}
+		return []ts.Stmt{ts.ExprStmt{E: e}}
 	case 0:
 		return g.declStmt()
 	case 1:
